@@ -42,6 +42,22 @@ Theorem c03_close_flushes : forall oc kc ic ec en hw hr sds cls input inq0 errq0
 Proof. exact close_flushes. Qed.
 Print Assumptions c03_close_flushes.
 
+(* the same in readable form: no accepted packet the encoder accepts is left behind; a packet the
+   encoder refuses (too large) is dropped alone — the packets queued after it still arrive *)
+Theorem c03_encodable_all_arrive : forall oc kc ic ec en hw hr sds cls input inq0 errq0 cs j cl,
+  let s := run repaired (init oc kc ic ec en hw hr sds cls input inq0 errq0) cs in
+  hw = true ->
+  nth_error (closers s) j = Some cl -> graceful cl = true -> cp cl = CRet true -> wbroken s = false ->
+  forall p, In p (acc_cas s) -> pok p = true -> In p (wire s).
+Proof. exact encodable_all_arrive. Qed.
+Print Assumptions c03_encodable_all_arrive.
+
+Example c03_example_refused_in_the_middle :
+  let s := run repaired refused_init refused_sched in
+  map cp (closers s) = [CRet true] /\ fin s = true /\ wbroken s = false /\
+  acc_cas s = [p1; pbad; p3] /\ wire s = [p1; p3] /\ gone s = [p1; pbad; p3].
+Proof. exact repaired_refused_in_the_middle. Qed.
+
 (* once FIN is set no pump is alive: the wire never changes again, FIN is last *)
 Theorem c03_fin_is_last : forall oc kc ic ec en hw hr sds cls input inq0 errq0 cs,
   let s := run repaired (init oc kc ic ec en hw hr sds cls input inq0 errq0) cs in
